@@ -300,7 +300,43 @@ class History:
         self.runs.append(rec)
         return rec
 
+    def run_reused(self, mode: str, cache: bool, chooser: simloop.Chooser) -> dict:
+        """Like run(), but every run of the history uses ONE Scheduler object (as a notebook, a test or a
+        long-lived service does).  Jobs of the previous run that are still with the executor (the run failed
+        while they were running) stay there: their units are still accounted for and their completions are
+        choices of the new run.  They are renamed <<0, old path>> and carried over as submissions."""
+        self.pm.load(self.ver)
+        if getattr(self, "_s", None) is None:
+            self._bk = simloop.open_backend(self.db)
+            self._s, self._d = simloop.make_scheduler(self._bk, limits=self.prog["limits"], chooser=chooser)
+        s, d = self._s, self._d
+        carried = []
+        for j in d.running:
+            if not (j._vpath and j._vpath[0] == 0):
+                j._vpath = (0,) + tuple(j._vpath)
+            carried.append({"ev": "submit", "job": list(j._vpath), "task": j.task.fullname, "task_hash": j.task.hash,
+                            "args_hash": j.args_hash, "eval_hash": j.eval_hash, "ctx": j.context_hash or "",
+                            "units": {k: v for k, v in dict(j.get_limits()).items() if v}, "executor": "default",
+                            "scope": "NONE", "prov": False, "carried": True})
+        d.events, d.submitted, d.nsteps, d.njobs, d.chooser, d.last_choice = list(carried), [], 0, 0, chooser, None
+        eid = str(uuid.uuid4())
+        out = simloop.run_controlled(s, d, self.pm.root_expr(), dryrun=(mode == "dry"), cache=cache, execution_id=eid)
+        try:
+            digest = callgraph_digest(self._bk, eid)
+        except Exception:  # noqa  (a run that died inside the backend may leave the session unusable)
+            self._bk.session.rollback()
+            digest = {"calls": [], "args": []}
+        rec = {"mode": mode, "cache": cache, "ver": dict(self.ver), "limits": self.prog["limits"], "out": out,
+               "events": d.events, "digest": digest, "drift": None, "calls": dict(d.calls),
+               "nsub": len(d.submitted), "run_index": len(self.runs) + 1, "carried": len(carried),
+               "left_running": len(d.running)}
+        self.runs.append(rec)
+        return rec
+
     def close(self) -> None:
+        if getattr(self, "_s", None) is not None:
+            simloop.close_backend(self._bk)
+            self._s = None
         try:
             os.unlink(self.db)
         except OSError:
@@ -338,6 +374,20 @@ def random_history(ctx: Ctx, prog: dict, tag: str, p_finish: float, limits: Opti
             continue
         chooser = simloop.PolicyChooser(*policy) if policy else simloop.RandomChooser(ctx.rng, p_finish)
         rec = h.run(st["mode"], st["cache"], chooser, limits=limits)
+        if rec["out"]["outcome"] == "hang":
+            break
+    return h
+
+
+def reuse_history(ctx: Ctx, prog: dict, tag: str, policy: Optional[tuple], p_finish: float = 0.5) -> History:
+    """All runs of the plan on one Scheduler object."""
+    h = History(ctx, prog, tag)
+    for st in prog["plan"]:
+        if st["k"] == "edit":
+            h.edit(st["t"])
+            continue
+        chooser = simloop.PolicyChooser(*policy) if policy else simloop.RandomChooser(ctx.rng, p_finish)
+        rec = h.run_reused(st["mode"], st["cache"], chooser)
         if rec["out"]["outcome"] == "hang":
             break
     return h
@@ -459,7 +509,7 @@ def _hang_key(rec: dict) -> Optional[str]:
 
 def suite(ctx: Ctx, on: list[str], n_random_progs: int, n_sim: int, n_random_hist: int,
           alt_limits: bool = False, corrupt=None, tag: str = "s", progs: Optional[list] = None,
-          need_handlers=("exec", "done", "resolve", "reject", "finish")) -> dict:
+          need_handlers=("exec", "done", "resolve", "reject", "finish"), n_reuse: int = 0) -> dict:
     """
     Runs the whole pipeline for the clause groups `on`.  `corrupt(trace) -> bool` builds the negative
     control for the property (mutates a copy of a recorded trace so that its clause must fail).
@@ -571,6 +621,35 @@ def suite(ctx: Ctx, on: list[str], n_random_progs: int, n_sim: int, n_random_his
         ctx.distinct({"p": prog["tasks"], "lim": lim,
                       "acts": [[e["c"] for e in rec["events"] if e["ev"] == "choice"] for rec in h.runs]})
         h.close()
+    # ---- 5b. the same plans with ONE Scheduler object for all runs of a history (the model starts every run on
+    #          a fresh scheduler: what a previous run left behind -- queued events, jobs still running when it
+    #          failed -- must not change what the next run returns) ------------------------------------------
+    multi = [i for i, p in enumerate(progs) if sum(1 for st in p["plan"] if st["k"] == "run") >= 2]
+    for i in range(n_reuse if multi else 0):
+        pi = multi[i % len(multi)] if i < 2 * len(multi) else ctx.rng.choice(multi)
+        prog = progs[pi]
+        policy = (True, True) if i < len(multi) else None
+        h = reuse_history(ctx, prog, f"{tag}u{i}", policy, ctx.rng.choice([0.5, 0.7, 0.9]))
+        stats["reused"] = stats.get("reused", 0) + 1
+        stats["reused_with_leftovers"] = stats.get("reused_with_leftovers", 0) + (
+            1 if any(r["carried"] or (k > 0 and h.runs[k - 1]["out"]["outcome"] == "error")
+                     for k, r in enumerate(h.runs)) else 0)
+        ts = history_traces(prog, h, expects.get(pi + 1), f"p{pi + 1}")
+        for k, (t, rec) in enumerate(zip(ts, h.runs)):
+            traces.append(t)
+            # leftovers exist when an earlier run of this history raised; the known failure modes are errors
+            # raised by the scheduler's own bookkeeping, never a wrong value
+            after_failure = any(r["out"]["outcome"] == "error" for r in h.runs[:k])
+            stale = after_failure and rec["out"]["outcome"] == "error" and \
+                rec["out"].get("etype") in ("KeyError", "AssertionError", "IntegrityError")
+            meta.append({"src": "reused-scheduler", "pi": pi + 1, "prog": prog, "run": rec["run_index"],
+                         "limits": rec["limits"], "reuse": True, "stale_key": "scheduler-reuse-stale-events" if stale else None,
+                         "acts": [e["c"] for e in rec["events"] if e["ev"] == "choice"],
+                         "hang_key": None, "plan": prog["plan"]})
+        ctx.count_eval()
+        ctx.distinct({"p": prog["tasks"], "reuse": True,
+                      "acts": [[e["c"] for e in rec["events"] if e["ev"] == "choice"] for rec in h.runs]})
+        h.close()
     ctx.note("asbuilt_drift", drift)
     # ---- 6. negative control + validation ---------------------------------------------------------------
     ctl_index = None
@@ -603,6 +682,8 @@ def suite(ctx: Ctx, on: list[str], n_random_progs: int, n_sim: int, n_random_his
         if why.startswith("nohang:quiescent") and m["hang_key"]:
             key = m["hang_key"]
             stats["hung_impl"] += 1
+        if m.get("stale_key") and (why.startswith("determ:") or why.startswith("errors:raised-error-not-produced")):
+            key = m["stale_key"]
         if why.startswith("callgraph:") and m["pi"] in forkdev:
             # explained by the as-built deviation DevForkAtExec (TLC reports the program)
             key = "handle-fork-order"
